@@ -588,6 +588,18 @@ impl Sim {
         let extra = spurious > 0 && self.drv_rng.below(1000) < spurious;
         if due || extra {
             let before = if self.model_trace { Some(self.nodes[node].conns[&ch].conn.verif_snapshot()) } else { None };
+            if let Some(b) = &before {
+                // TimerTable::next_timeout against the table itself
+                let base = self.base;
+                let t = |x: Option<Instant>| x.map_or("-".to_string(), |i| (i.saturating_duration_since(base).as_nanos() as u64).to_string());
+                let tbl: Vec<String> = b.timers.iter().map(|x| t(*x)).collect();
+                let pt = self.nodes[node].conns[&ch].conn.poll_timeout();
+                if self.model_ops.len() < 400_000 {
+                    self.model_ops.push(format!("timers next {nowoff} {}", tbl.join(" ")));
+                    let exp: Vec<String> = b.timers.iter().enumerate().filter(|(_, x)| x.is_some_and(|i| i <= now)).map(|(i, _)| i.to_string()).collect();
+                    self.model_impl.push(format!("{} [{}]", t(pt), exp.join(",")));
+                }
+            }
             let nc = self.nodes[node].conns.get_mut(&ch).unwrap();
             nc.conn.handle_timeout(now);
             if let Some(b) = before {
